@@ -241,6 +241,7 @@ struct H52 : hu::Harness {
     out.probes[nj > 1 ? "runs_parallel" : "runs_j1"] = 1;
     out.probes["check_files"] = long(nfiles);
     if (par(3, 0)) out.probes["runs_with_a_per_directory_configuration_file"] = 1;
+    if (cfg0.sigchld_ignored) out.probes["runs_started_with_sigchld_ignored"] = 1;
     size_t big = 0; for (auto& b : blocks[1]) if (b.size() > 8192) ++big; if (big) out.probes["blocks_over_8KiB"] = long(big);
     return out;
   }
